@@ -1,6 +1,6 @@
 //! C09 — crash faults: budget arithmetic, effect of a crash, silence of crashed actors, and the
 //! crashed configuration being a NEW state.
-//! Instantiation: `ActorModel<CA, (), u8>` with 1 (thorough: 2) actors; timers, random
+//! Instantiation: `ActorModel<CA, (), u8>` with 1 actor (two actors run out of memory in CBMC: measured); timers, random
 //! choices and network empty except in the "loaded crash" harness; `CA` has `u8` state/messages.
 use super::common::*;
 use crate::actor::{Actor, ActorModel, ActorModelAction, ActorModelState, Id, Network, Out, RandomChoices, Timers};
@@ -96,12 +96,6 @@ fn crash_step<const N: usize, const I: usize>() {
 fn c09_crash_step_n1() {
     crash_step::<1, 0>();
 }
-#[kani::proof]
-#[kani::unwind(4)]
-fn c09_t_crash_step_n2() {
-    crash_step::<2, 0>();
-    crash_step::<2, 1>();
-}
 
 /// Deliveries: a crashed actor never receives a message (no successor for any source and
 /// message), while an actor that is up does, and its handler runs.
@@ -136,12 +130,6 @@ fn deliver_step<const N: usize, const I: usize>() {
 #[kani::unwind(3)]
 fn c09_deliver_n1() {
     deliver_step::<1, 0>();
-}
-#[kani::proof]
-#[kani::unwind(4)]
-fn c09_t_deliver_n2() {
-    deliver_step::<2, 0>();
-    deliver_step::<2, 1>();
 }
 
 /// On an ORDERED network too, a delivery addressed to a crashed actor yields no successor (the
@@ -236,11 +224,6 @@ fn crash_budget<const N: usize>() {
     std::mem::forget(acts);
 }
 
-#[kani::proof]
-#[kani::unwind(4)]
-fn c09_t_crash_budget_n2() {
-    crash_budget::<2>();
-}
 #[kani::proof]
 #[kani::unwind(3)]
 fn c09_crash_budget_n1() {
